@@ -96,6 +96,7 @@ def point_body(case, rec):
         rec.violation('C07/evaluate/exception/%s' % type(ex).__name__, {'error': repr(ex)}, cj)
         return
     rec.cls(cls)
+    rec.cls('curve_' + g.name)
     rec.cls('t_' + case['tcl'])
     rec.cls('x_' + case['xcl'])
     err = rel(val, ref)
@@ -107,7 +108,7 @@ def point_body(case, rec):
         rec.violation('C07/evaluate/%s/%s' % (cls, 'seam' if (g.closed and (tx[0] == 0 or tx[1] == g.L)) else 'plain'),
                       {'value': val, 'reference': ref, 'rel_err': err, 'tolerance': tol, 'class': cls}, cj)
         return
-    if (not g.circle) and side_x == g.side_of(*tx):
+    if g.straight(side_x) and side_x == g.side_of(*tx):
         try:
             with repo.quiet():
                 ve = float(SL.evaluate_exact(e, t, x))
@@ -203,7 +204,7 @@ def integral_body(case, rec):
             nx = min(nx, 16)
             I1 = gauss_integral(f_quad, tt[0], tt[1], tx[0], tx[1], 1, nx)
             I2 = gauss_integral(f_quad, tt[0], tt[1], tx[0], tx[1], 2, 2 * nx)
-            same_side = (not g.circle) and side_t == g.side_of(*sx)
+            same_side = g.straight(side_t) and side_t == g.side_of(*sx)
             if same_side:
                 f_ex = lambda t, x: float(SL.evaluate_exact(trial, t, x))
                 J1 = gauss_integral(f_ex, tt[0], tt[1], tx[0], tx[1], 1, nx)
@@ -250,8 +251,8 @@ def body(case, rec):
 def cases():
     tcs = ['inside', 'at_end', 'far_after', 'tau_start', 'tau_end', 'tau_end', 'shortly_after', 'at_start']
     pt = points.point_cases(time_classes=tcs, polygons=True).map(lambda c: dict(c, kind='point'))
-    ig = st.one_of(pairs.target_cases(time_classes=['separated', 'touch_after']),
-                   pairs.history_cases().map(lambda c: dict(c, tc='separated'))).map(lambda c: dict(c, kind='integral'))
+    ig = st.one_of(pairs.target_cases(time_classes=['separated', 'touch_after'], curves=pairs.WITH_MIXED),
+                   pairs.history_cases(curves=pairs.WITH_MIXED).map(lambda c: dict(c, tc='separated'))).map(lambda c: dict(c, kind='integral'))
     return st.one_of(pt, pt, pt, pt, pt, pt, pt, ig)
 
 
